@@ -135,6 +135,16 @@ def gen_case(rng, i, tier):
         d = rand_marked(rng, rng.choice([2, 3, 4]), counter)
         if not isinstance(d, (dict, list)):
             d = {'v': d}
+        if rng.random() < 0.15:
+            # something that would be invalid as output, outside every selected and every hidden subtree: it is not
+            # part of any output document, so it must not matter
+            found = []
+            model._find_outputs(d, found)
+            junk = rng.choice(['$required', '$nosuch', '$required'])
+            if found and isinstance(d, dict) and '$output' not in d:
+                d['zz'] = junk
+            elif found and isinstance(d, list) and not any(isinstance(x, dict) and '$output' in x for x in d):
+                d.append(junk)
         docs.append(d)
     return {'docs': docs}
 
@@ -175,6 +185,8 @@ def check_case(ctx, case):
     res.labels.add('markers:%s' % (nmarks if nmarks < 4 else '4+'))
     if 'sweep' in case:
         res.labels.add('sweep:n=%d' % case['sweep'])
+    if any(x in ('$required', '$nosuch') for x in strings_of(docs)):
+        res.labels.add('invalid-value-outside-selection')
     both = False
     for d in docs:
         for p, n in walk(d):
